@@ -102,7 +102,7 @@ func (sh *blobShape) lenOf(x ssa.Value, recv *ssa.Parameter) string {
 
 func runC19(c *core.Ctx) {
 	runFixtures(c, "bounds", "locks")
-	c.Explain("Structural clauses of C19 decided from source: (R19.1) every slice/make whose bounds depend on a parameter in a slice-backed Blob method is entailed safe by the dominating comparisons (difference-constraint closure), and every int64 parameter of View/Slice/Set/Grow/Truncate has a 'negative => error' guard dominating all mutations; (R19.2) View/Slice select receiver data by [start:end]; (R19.3) View aliases (shares array and mutex), Slice copies into a fresh allocation; (R19.4) no interface dispatch / re-locking call while the blob mutex may be held; (R19.5) every store to the data field is followed by the atomic length mirror in the same block; (R19.6) in the js/wasm typed-array Blob every value written to the mirrored length is non-negative by guards or was accepted by a typed-array allocation (guard-set differences to blob.Bytes are listed as information only: the JS engine clamps or validates the rest), and View/Slice use subarray/slice(start,end). NOT claimed: byte-exact equality with a []byte model over operation sequences, aliasing after Grow reallocates, behaviour of the JS engine.")
+	c.Explain("Structural clauses of C19 decided from source: (R19.1) every slice/make whose bounds depend on a parameter in a slice-backed Blob method is entailed safe by the dominating comparisons (difference-constraint closure), and every int64 parameter of View/Slice/Set/Grow/Truncate has a 'negative => error' guard dominating all mutations; (R19.2) View/Slice select receiver data by [start:end]; (R19.3) View aliases (shares array and mutex), Slice copies into a fresh allocation; (R19.4) no interface dispatch / re-locking call while the blob mutex may be held; (R19.5) every store to the data field is followed by the atomic length mirror in the same block; (R19.6) in the js/wasm typed-array Blob every value written to the mirrored length is non-negative by guards or was accepted by a typed-array allocation (guard-set differences to blob.Bytes are listed as information only: the JS engine clamps or validates the rest), and View/Slice use subarray/slice(start,end). (R19.7) the length reads behind the guards of a slice of the mutex-guarded buffer are made inside the critical section that slices (an unlocked fast-path test repeated under the lock is accepted): a bound checked before locking is stale when another handle resizes the blob, and the slice panics instead of returning an error. NOT claimed: byte-exact equality with a []byte model over operation sequences, aliasing after Grow reallocates, behaviour of the JS engine.")
 	c.Assume("A5: all length reads of one receiver inside one method denote one value (sequential reading; concurrent resize between check and use is C15's matter)",
 		"A2: stdlib (sync, sync/atomic, builtin copy/append) behaves as documented; int64->int conversions do not truncate (64-bit int; the 386 target is type-checked in the thorough tier only)")
 	c.RuleDoc("R19.1", "every parameter-dependent slice/make bound in a slice-backed Blob method is entailed by dominating guards; negative => error guard per int64 parameter")
@@ -110,6 +110,7 @@ func runC19(c *core.Ctx) {
 	c.RuleDoc("R19.3", "View result aliases receiver array+mutex; Slice result is a fresh allocation filled by copy")
 	c.RuleDoc("R19.4", "no invoke / lock-acquiring call while the blob mutex may be held")
 	c.RuleDoc("R19.5", "store to data field is followed by atomic length mirror")
+	c.RuleDoc("R19.7", "the bounds of a slice of the mutex-guarded buffer are checked inside the critical section that slices")
 	c.RuleDoc("R19.6", "typed-array Blob (js/wasm): stored length is guarded non-negative or validated by an allocation")
 	var refGuards map[string][]string
 	for _, p := range c.Progs {
@@ -136,6 +137,7 @@ func runC19(c *core.Ctx) {
 			}
 			if sh.dataField != "" {
 				r19SliceBacked(c, p, sh)
+				r19SameSection(c, p, sh, "R19.7")
 				if refGuards == nil {
 					refGuards = guardSets(sh)
 				}
@@ -157,6 +159,7 @@ func runC19(c *core.Ctx) {
 	c.Floor("R19.4", 4)
 	c.Floor("R19.5", 2)
 	c.Floor("R19.6", 2)
+	c.Floor("R19.7", 3)
 }
 
 var blobOps = []string{"View", "Slice", "Set", "Grow", "Truncate"}
@@ -193,31 +196,7 @@ func r19SliceBacked(c *core.Ctx, p *load.Program, sh *blobShape) {
 					c.OKTrivial("R19.1", key, p.Pos(x.Pos()), "constant bounds")
 					return
 				}
-				b := ssax.NewBounds(ssax.FactsAtInstr(x), canon)
-				L := ssax.Term{Sym: sh.lenOf(x.X, recv)}
-				zero := ssax.Term{IsConst: true}
-				var missing []string
-				need := func(ok bool, what string) {
-					if !ok {
-						missing = append(missing, what)
-					}
-				}
-				var lo, hi ssax.Term
-				if x.Low != nil {
-					lo, _ = canon(x.Low)
-					need(b.LE(zero, lo, 0), "0 <= low")
-				}
-				if x.High != nil {
-					hi, _ = canon(x.High)
-					need(b.LE(hi, L, 0), "high <= len")
-					if x.Low != nil {
-						need(b.LE(lo, hi, 0), "low <= high")
-					} else {
-						need(b.LE(zero, hi, 0), "0 <= high")
-					}
-				} else if x.Low != nil {
-					need(b.LE(lo, L, 0), "low <= len")
-				}
+				missing := sliceMissing(ssax.FactsAtInstr(x), canon, sh, x, recv)
 				if len(missing) == 0 {
 					c.OK("R19.1", key, p.Pos(x.Pos()), "bounds entailed by dominating guards")
 				} else {
@@ -932,4 +911,131 @@ func variadicArgsAre(sl ssa.Value, want ...ssa.Value) bool {
 		}
 	}
 	return true
+}
+
+// sliceMissing: which of the bounds obligations of slice expression x are not entailed by the given facts.
+func sliceMissing(facts []ssax.Fact, canon func(ssa.Value) (ssax.Term, bool), sh *blobShape, x *ssa.Slice, recv *ssa.Parameter) []string {
+	b := ssax.NewBounds(facts, canon)
+	L := ssax.Term{Sym: sh.lenOf(x.X, recv)}
+	zero := ssax.Term{IsConst: true}
+	var missing []string
+	need := func(ok bool, what string) {
+		if !ok {
+			missing = append(missing, what)
+		}
+	}
+	var lo, hi ssax.Term
+	if x.Low != nil {
+		lo, _ = canon(x.Low)
+		need(b.LE(zero, lo, 0), "0 <= low")
+	}
+	if x.High != nil {
+		hi, _ = canon(x.High)
+		need(b.LE(hi, L, 0), "high <= len")
+		if x.Low != nil {
+			need(b.LE(lo, hi, 0), "low <= high")
+		} else {
+			need(b.LE(zero, hi, 0), "0 <= high")
+		}
+	} else if x.Low != nil {
+		need(b.LE(lo, L, 0), "low <= len")
+	}
+	return missing
+}
+
+// r19SameSection (R19.7 / R15.3): the length reads behind the guards of a slice of the mutex-guarded buffer are
+// made while the mutex is held, in the critical section that slices — otherwise a resize by another handle between
+// check and use turns the guarded index into a panic (check-then-act).
+func r19SameSection(c *core.Ctx, p *load.Program, sh *blobShape, rule string) {
+	if sh.muField == "" || sh.dataField == "" {
+		return
+	}
+	tk := typeKey(sh.named)
+	var mnames []string
+	for n := range sh.methods {
+		mnames = append(mnames, n)
+	}
+	sort.Strings(mnames)
+	for _, mn := range mnames {
+		fn := sh.methods[mn]
+		recv := recvParam(fn)
+		if recv == nil || fn.Blocks == nil {
+			continue
+		}
+		canon := sh.canon(fn)
+		var ls map[ssa.Instruction]ssax.LockSet
+		held := func(at ssa.Instruction) bool {
+			if ls == nil {
+				ls = ssax.Locksets(fn, true, nil)
+			}
+			for k := range ls[at] {
+				if strings.HasSuffix(k, "."+sh.muField) {
+					return true
+				}
+			}
+			return false
+		}
+		ord := ordinals{}
+		ssax.Instrs(fn, func(ins ssa.Instruction) {
+			x, ok := ins.(*ssa.Slice)
+			if !ok || (x.Low == nil && x.High == nil) {
+				return
+			}
+			if _, ok := x.X.Type().Underlying().(*types.Slice); !ok {
+				return
+			}
+			// only slices of the receiver's guarded buffer
+			base, fidx, isField := ssax.FieldLoad(x.X)
+			if !isField || base != ssa.Value(recv) {
+				return
+			}
+			if st, ok := sh.named.Underlying().(*types.Struct); !ok || st.Field(fidx).Name() != sh.dataField {
+				return
+			}
+			_, lowConst := constOrNil(x.Low)
+			_, highConst := constOrNil(x.High)
+			if lowConst && highConst {
+				return
+			}
+			key := tk + "." + mn + "|" + ord.next("slice-section")
+			L := sh.lenOf(x.X, recv)
+			var outside []string
+			var inside []ssax.Fact
+			all := ssax.FactsAtInstr(x)
+			for _, f := range all {
+				keep := true
+				if bo, ok := f.Cond.(*ssa.BinOp); ok {
+					for _, side := range []ssa.Value{bo.X, bo.Y} {
+						t, ok := canon(side)
+						if !ok || t.Sym != L {
+							continue
+						}
+						// the instruction that read the length
+						v := ssax.StripIntConv(side)
+						if ri, ok := v.(ssa.Instruction); ok && !held(ri) {
+							outside = append(outside, p.Pos(ri.Pos()))
+							keep = false
+						}
+					}
+				}
+				if keep {
+					inside = append(inside, f)
+				}
+			}
+			if len(sliceMissing(all, canon, sh, x, recv)) > 0 {
+				return // not entailed at all: R19.1 reports it
+			}
+			if len(outside) > 0 && len(sliceMissing(inside, canon, sh, x, recv)) == 0 {
+				outside = nil // re-checked under the lock: the unlocked test is only a fast path
+			}
+			switch {
+			case !held(x):
+				c.Bad(rule, key, p.Pos(x.Pos()), fmt.Sprintf("%s slices the buffer without holding %s", fname(fn), sh.muField))
+			case len(outside) > 0:
+				c.Bad(rule, key, p.Pos(x.Pos()), fmt.Sprintf("%s: the length compared with the bounds of %s was read at %s, before %s is locked: another handle can shrink the buffer between the check and the slice, which then panics instead of returning an error (check-then-act)", fname(fn), sliceStr(x), strings.Join(outside, ", "), sh.muField))
+			default:
+				c.OK(rule, key, p.Pos(x.Pos()), "bounds are checked and used inside one critical section")
+			}
+		})
+	}
 }
